@@ -10,7 +10,6 @@ Local Open Scope Z_scope.
 Definition aff (a b : Z) (u : Z) : Z := a * u + b.
 Definition affx (a : Z) (u x : Z) : Z := a * u + x.
 Definition pairf (uv : Z * Z) : Z * Z := (fst uv + snd uv, 2 * snd uv + 1).
-Definition optl (o : option (list Q)) : list Q := match o with None => [0%Q] | Some l => 1%Q :: l end.
 
 Definition run_c14 (sub : Z) (a : list Q) : list Q :=
   match sub with
@@ -61,7 +60,6 @@ Fixpoint triples (l : list CQ) : list (CQ * CQ * CQ) :=
   | _ => []
   end.
 
-Definition cq_of_z (z : Z) : CQ := mkcx (qqc (zq z)) (qqc 0).
 
 (* dt * (1/M) * sum_j integrand (lr_j, e_j, eh_j) *)
 Definition contour_coef (p j : Z) (dt : CQ) (pts : list (CQ * CQ * CQ)) : CQ :=
@@ -70,12 +68,9 @@ Definition contour_coef (p j : Z) (dt : CQ) (pts : list (CQ * CQ * CQ)) : CQ :=
   @omul CQ dt (@odiv CQ s (cq_of_z (Z.of_nat (length pts)))).
 
 (* test nonlinearity on vectors of length n: N(u)_k = u_k^2 + u_{(k+1) mod n} *)
-Definition vec (l : list CQ) : nat -> CQ := fun k => nth k l (c0 QcOps).
 Definition test_nl (n : nat) (u : nat -> CQ) : nat -> CQ :=
   fun k => @oadd CQ (@omul CQ (u k) (u k)) (u (Nat.modulo (S k) n)).
 
-Fixpoint chunks {A} (n : nat) (m : nat) (l : list A) : list (list A) :=
-  match m with O => [] | S m' => firstn n l :: chunks n m' (skipn n l) end.
 
 Definition run_c02 (sub : Z) (a : list Q) : list Q :=
   match sub with
@@ -103,7 +98,6 @@ Definition run_c02 (sub : Z) (a : list Q) : list Q :=
   end.
 
 (* ---- C20: rejection guards (Gen/Guards.v) ---- *)
-Definition zs (l : list Q) : list Z := map qz l.
 Definition run_c20 (sub : Z) (a : list Q) : list Q :=
   let z i := qz (getq a i) in let b i := qb (getq a i) in
   let r (x : bool) := [bq x] in
@@ -134,9 +128,6 @@ Definition run_c20 (sub : Z) (a : list Q) : list Q :=
   end.
 
 (* ---- C01/C13: linear symbols at one mode, conversion functions ---- *)
-Definition cr (q : Q) : CQ := mkcx (qqc q) (qqc 0).          (* real number as a complex *)
-Definition crs (l : list Q) : list CQ := map cr l.
-Definition ciQ : CQ := @ci QcOps.
 (* args: cls D s k_1..k_D params... *)
 Definition run_sym (a : list Q) : list Q :=
   let cls := qz (getq a 0) in let D := qn (getq a 1) in
@@ -173,8 +164,6 @@ Definition run_wave (a : list Q) : list Q :=
   let r := wave_mode CQ ciQ (g 0%nat) (g 1%nat) (g 2%nat) (g 3%nat) (cx 4%nat) (cx 6%nat) (qb (getq a 8)) (cx 9%nat) (cx 11%nat) in
   put_cx [fst r; snd r].
 
-Definition qcs (l : list Q) : list QcOps := map qqc l.
-Definition unqcs (l : list QcOps) : list Q := map qcq l.
 (* args: fid x y [z] payload...  (scalars first: L dt  or  D N [M]) *)
 Definition run_conv (a : list Q) : list Q :=
   let fid := qz (getq a 0) in
@@ -219,10 +208,6 @@ Definition run_c04 (sub : Z) (a : list Q) : list Q :=
   end.
 
 (* ---- C03: nonlinear terms on sparse band-limited spectra over the Gaussian rationals ---- *)
-Fixpoint idx_eqb (a b : list Z) : bool :=
-  match a, b with [], [] => true | x :: a', y :: b' => Z.eqb x y && idx_eqb a' b' | _, _ => false end.
-Fixpoint lookup (l : list (list Z * CQ)) (k : list Z) : CQ :=
-  match l with [] => c0 QcOps | (j, v) :: r => if idx_eqb j k then v else lookup r k end.
 (* args: term D N Kc unused s nparams params... nchan values...   (values: per channel, one (re, im) per band index in bandD order);
    Kc is the retained band of the implementation's mask; the harness checks Kc <= dealias_K p q N (premise of the alias-free theorems) *)
 Definition run_term (a : list Q) : list Q :=
